@@ -434,9 +434,33 @@ macro_rules! impl_cast_from_string {
     };
 }
 
-impl_cast_from_string!(
-    u8, u16, u32, u64, usize, i8, i16, i32, i64, isize, f32, f64, char, bool
-);
+impl_cast_from_string!(u8, u16, u32, u64, usize, i8, i16, i32, i64, isize, char, bool);
+
+// float targets can represent the string null
+macro_rules! impl_cast_from_string_float {
+    ($($T: ty),*) => {
+        $(
+            impl Cast<$T> for String {
+                #[inline] fn cast(self) -> $T { self.as_str().cast() }
+            }
+            impl Cast<$T> for &str {
+                #[inline] fn cast(self) -> $T {
+                    if self == "None" { <$T>::NAN } else { self.parse().expect("Parse string error") }
+                }
+            }
+            impl Cast<Option<$T>> for String {
+                #[inline] fn cast(self) -> Option<$T> { self.as_str().cast() }
+            }
+            impl Cast<Option<$T>> for &str {
+                #[inline]
+                fn cast(self) -> Option<$T> {
+                    if self == "None" { None } else { Some(self.cast()) }
+                }
+            }
+        )*
+    };
+}
+impl_cast_from_string_float!(f32, f64);
 
 impl Cast<String> for &str {
     #[inline]
